@@ -456,6 +456,21 @@ func vMonVAA(o *vMon, c *ralContracts, gc vaa.ChainID, ga vaa.Address, ts, gsi u
 		if len(m.Keys) > 255 {
 			want = nil
 		}
+		// a guardian set is a set: the contract stores the key list as it comes and counts every entry towards the quorum, so a request
+		// naming one key twice (in whatever spelling: with, without 0x, upper / lower case) or the zero address is not a valid request
+		seenKey := map[string]bool{}
+		for _, key := range m.Keys {
+			if kb, ok := vReqKey(key.str()); ok {
+				hk := hex.EncodeToString(kb)
+				if seenKey[hk] {
+					o.add("accept:"+k+":duplicate", "VAA produced for a guardian-set upgrade that names the guardian key %s twice (the contract would count that guardian twice towards the quorum)", hk)
+				}
+				seenKey[hk] = true
+				if hk == "0000000000000000000000000000000000000000" {
+					o.add("accept:"+k+":zero", "VAA produced for a guardian-set upgrade that contains the zero address as a guardian key")
+				}
+			}
+		}
 		o.bytesEq(&run, k, "guardianSets[1]", want, "guardian keys")
 		if !run.sizeAsserted() {
 			o.add("ral:"+k, "size assertion not evaluated")
